@@ -9,10 +9,10 @@ Not in py2v's statement subset (closures dispatched by regular expressions), hen
     `pat = re.compile(<literal>)` / `self.halo_field_loaders[pat] = <lambda | local def>`;
   * every pattern is instantiated (re.fullmatch) on every column name; the loader closure is then executed
     *symbolically* on the match object: string-valued sub-expressions (m[0], m['com'], +, .replace) are computed,
-    numeric ones become an `expr` of coq/theories/C05/Expr.v over raw[..], halos[..], box, zspace_to_kms, constants.
+    numeric ones become an `expr` of coq/theories/HaloTable/Expr.v over raw[..], halos[..], box, zspace_to_kms, constants.
 
 Anything outside the recognised shapes raises TranslateError naming the site (the tie is then reported broken).
-Output: C05/Gen.v with the name types `col` / `rawcol`, the dtype tables, `n_loaders`, `expr_of`, `also_loads`,
+Output: HaloTable/Gen.v (shared by C05 and C02) with the name types `col` / `rawcol`, the dtype tables, `n_loaders`, `expr_of`, `also_loads`,
 INT16SCALE and the unit-off constants."""
 import ast
 import re
@@ -21,7 +21,7 @@ from fractions import Fraction
 from .common import parse, py2v
 
 TranslateError = py2v.TranslateError
-OUTPUTS = ['C05/Gen.v']
+OUTPUTS = ['HaloTable/Gen.v']
 REL = 'abacusnbody/data/compaso_halo_catalog.py'
 DT_TABLES = ['user_dt', 'clean_dt', 'clean_dt_progen', 'halo_lc_dt']
 NP_KINDS = {'float32': 'F32', 'float64': 'F64', 'uint8': 'U8', 'uint16': 'U16', 'uint32': 'U32', 'uint64': 'U64',
@@ -505,7 +505,7 @@ def generate(repo):
    instantiated on {len(cols)} column names)
    Do not edit: regenerated from the repository's working tree on every check run. *)
 From Coq Require Import ZArith QArith List Bool String.
-From Abacus.C05 Require Import Expr.
+From Abacus.HaloTable Require Import Expr.
 Import ListNotations.
 Local Open Scope Z_scope.
 ''')
@@ -548,7 +548,7 @@ Local Open Scope Z_scope.
         'n_columns': len(cols), 'n_raw': len(raws), 'n_patterns': len(X['loaders']),
         'not_modelled': ['passthrough branch', 'float32 rounding', 'NumPy broadcasting beyond scalar reuse'],
     }
-    return {'C05/Gen.v': text}, meta
+    return {'HaloTable/Gen.v': text}, meta
 
 
 def table_for_harness(repo):
